@@ -847,6 +847,10 @@ package profile
 // ---- C01/C02: postDecode — id resolution after decoding. Safety for any decoded message (ids arbitrary, string
 // indices arbitrary), soundness of the resolution (a resolved reference carries the id that was referenced), and the
 // unit padding of numeric labels: every non-empty unit list is as long as the value list of its key ----
+//@     invariant sep: sloc == nil || p.Location == nil || !same_array(sloc, p.Location)
+//@     invariant stack_len: len(sloc) == $i && forall k int :: 0 <= k && k < $i ==> sloc[k] != nil
+//@     invariant stack_callers: forall k int :: 1 <= k && k < $i ==> sloc[k].Address == addrs[k] - 1
+//@     invariant stack_leaf: $i >= 1 ==> sloc[0].Address == addrs[0]
 //@ func padStringArray
 //@   ensures len(result) == ite(l <= len(arr), len(arr), l)
 //@   ensures forall i int :: 0 <= i && i < len(arr) ==> result[i] == old(arr[i])
